@@ -195,6 +195,21 @@ int main(void)
             CHECK(ok, "decode reported success with bytes that differ from the original stripe");
         }
 #endif
+#ifdef BAND
+        /* beyond tolerance: reconstruct of every erased index must report an error or be exact */
+        for (int t = 0; t < SW && sets[s][t] >= 0; t++) {
+            int d = sets[s][t];
+            for (int j = 0; j < SW; j++) miss[j] = sets[s][j];
+            miss[SW] = -1;
+            load(data, parity, miss);
+            rc = ops->reconstruct(bd, data, parity, miss, d, PB);
+            if (rc >= 0) {
+                int ok = 1;
+                for (int b = 0; b < PB; b++) ok &= (work[d][b] == orig[d][b]);
+                CHECK(ok, "reconstruct beyond tolerance reported success with bytes that differ from the original fragment");
+            }
+        }
+#endif
 #ifndef BAND
         for (int t = 0; t < SW && sets[s][t] >= 0; t++) {
             int d = sets[s][t];
